@@ -425,6 +425,8 @@ type Obligation struct {
 	Instance int
 	Inputs   map[string]string // model-relevant input names -> term (for replay)
 	Invert   bool              // vacuity guard: passes unless the assumptions are contradictory
+	fx       *FnExec           // the function run that produced the obligation (replay)
+	Results  []Term            // result terms at the return site (postconditions; replay)
 	nameSteps bool             // build the query with the step assumptions named (unsat-core check)
 	PreLen   int               // vacuity step: Assumes[:PreLen] is the path condition before the assumed step (0: none)
 }
